@@ -53,7 +53,7 @@ func init() {
 
 // ---- C14 ----
 
-const c14Rule = "sequential part: an index is published, half of the queries are answered, then the builder goes through a seeded sequence of Reset / AddDocument (documents introducing new fields) / ConfigField / BuildIndex operations (always starting with Reset), then the other half is answered on the OLD index: all answers must be those of the one pure model index (Coq); through the hook the field table of the published index and the builder's are probed for aliasing; concurrent part (-race build): three goroutines query the published index while a fourth loops Reset -> AddDocument(new fields) -> BuildIndex on its builder; every answer is compared with the one taken before the builder activity and any race-detector report is a violation. Non-trivial = some query returns a non-empty proper subset; distinct = distinct input"
+const c14Rule = "(every sixth case publishes an EMPTY index, every sixth an index whose every AddDocument failed after indexing part of the document) sequential part: an index is published, half of the queries are answered, then the builder goes through a seeded sequence of Reset / AddDocument (documents introducing new fields) / ConfigField / BuildIndex operations (always starting with Reset), then the other half is answered on the OLD index: all answers must be those of the one pure model index (Coq); through the hook the field table of the published index and the builder's are probed for aliasing; concurrent part (-race build): three goroutines query the published index while a fourth loops Reset -> AddDocument(new fields) -> BuildIndex on its builder; every answer is compared with the one taken before the builder activity and any race-detector report is a violation. Non-trivial = some query returns a non-empty proper subset; distinct = distinct input"
 
 type c14In struct {
 	C14  bool  `json:"c14"`
@@ -139,6 +139,17 @@ func init() {
 			for i := 0; i < n; i++ {
 				c := mixedDocset(r, []string{"kgroups", "compact"}[i%2])
 				ops := []int{0}
+				switch i % 6 {
+				case 2: // the published index is empty: BuildIndex before any document
+					c.Docs = nil
+					ops = []int{0, 1, 2}
+				case 4: // every AddDocument of the published generation fails after indexing part of the document
+					c.Policy = "error"
+					for j := range c.Docs {
+						c.Docs[j].Cons = append(c.Docs[j].Cons, eConj{{F: 0, Inc: true, V: TV{T: "other:struct"}}})
+					}
+					ops = []int{0, 1, 2}
+				}
 				for k := 1 + r.Intn(19); k > 0; k-- {
 					ops = append(ops, r.Intn(4))
 				}
